@@ -46,7 +46,7 @@ inductive Follows (ds : Nat) : Prog → Option Path → List Op → CallRes → 
         (.buildFile path cmp fname args kwargs subs kept .null true false "" :: ops) r w
   | bfNotCreated (path cmp fname args kwargs body k t subs j ops r w) :
       Follows ds body (some path) subs (.ok j) none →
-      Follows ds (k (.error (.runtime .notCreated))) t ops r w →
+      Follows ds (k (.error (notCreatedExc path))) t ops r w →
       Follows ds (.buildFile path cmp fname args kwargs body k) t
         (.buildFile path cmp fname args kwargs subs j .null true false "" :: ops) r w
   | sbSetupFail (fname args kwargs body k t ops r w e) :
